@@ -2,7 +2,8 @@
    paths always data, hooks last; decorator effects apply forward only.
    Statements only; proofs in Proofs/DispatchProofs.v; the vocabulary
    (resolve_helper, call_indent_aware, enter_escape, reset_escape, write_value,
-   finish_value, name_as_data, apply_decorator, plain_name, render_step) is in
+   finish_value, name_as_data, apply_decorator, plain_name, render_step,
+   restore_current) is in
    Spec/DispatchSpec.v.
 
    The equations are one-step unfoldings: the left side runs at fuel `S f`, the
@@ -404,9 +405,24 @@ Theorem C14_render_template_app : forall reg data ft f t s A B,
   t_els t = A ++ B ->
   render_template reg data ft (S f) t s =
   rbind (fold_idx (render_step reg data ft f t) A 0 (set_current s (t_name t)))
-        (fun _ s' => fold_idx (render_step reg data ft f t) B (length A) s').
+        (fun _ s' => rbind (fold_idx (render_step reg data ft f t) B (length A) s')
+                           (fun _ s'' => ROk tt (set_current s'' (s_current s)))).
 Proof. exact render_template_app. Qed.
 Print Assumptions C14_render_template_app.
+
+(* Template::render, one step: the elements run in order under the template's
+   own name; on success the caller's template name is put back *)
+Theorem C14_render_template_unfold : forall reg data ft f t s,
+  render_template reg data ft (S f) t s =
+  rbind (fold_idx (render_step reg data ft f t) (t_els t) 0 (set_current s (t_name t)))
+        (fun _ s' => ROk tt (set_current s' (s_current s))).
+Proof. exact render_template_S. Qed.
+Print Assumptions C14_render_template_unfold.
+
+Theorem C14_render_template_restores_current : forall reg data ft f t s u s',
+  render_template reg data ft f t s = ROk u s' -> s_current s' = s_current s.
+Proof. exact render_template_restores_current. Qed.
+Print Assumptions C14_render_template_restores_current.
 
 (* decorator_effects_forward: two templates that agree on the prefix A (same
    name, same positions for A) have the SAME outcome for A — the state after
@@ -418,9 +434,11 @@ Theorem C14_decorator_effects_forward : forall reg data ft f t1 t2 A R1 R2 s,
   exists P : rres unit,
     P = fold_idx (render_step reg data ft f t1) A 0 (set_current s (t_name t1)) /\
     render_template reg data ft (S f) t1 s =
-      rbind P (fun _ s' => fold_idx (render_step reg data ft f t1) R1 (length A) s') /\
+      rbind P (fun _ s' => rbind (fold_idx (render_step reg data ft f t1) R1 (length A) s')
+                                 (fun _ s'' => ROk tt (set_current s'' (s_current s)))) /\
     render_template reg data ft (S f) t2 s =
-      rbind P (fun _ s' => fold_idx (render_step reg data ft f t2) R2 (length A) s').
+      rbind P (fun _ s' => rbind (fold_idx (render_step reg data ft f t2) R2 (length A) s')
+                                 (fun _ s'' => ROk tt (set_current s'' (s_current s)))).
 Proof. exact decorator_effects_forward. Qed.
 Print Assumptions C14_decorator_effects_forward.
 
@@ -433,9 +451,12 @@ Theorem C14_decorator_after_prefix : forall reg data ft f nm A dt B m1 m2 s,
     rbind P (fun _ sA =>
       rbind (render_step reg data ft f (MkT nm (A ++ ElDecoExpr dt :: B) m1) (ElDecoExpr dt)
                          (length A) sA)
-            (fun _ sD => fold_idx (render_step reg data ft f (MkT nm (A ++ ElDecoExpr dt :: B) m1))
-                                  B (S (length A)) sD)) /\
+            (fun _ sD =>
+               rbind (fold_idx (render_step reg data ft f (MkT nm (A ++ ElDecoExpr dt :: B) m1))
+                               B (S (length A)) sD)
+                     (fun _ sE => ROk tt (set_current sE (s_current s))))) /\
   render_template reg data ft (S f) (MkT nm (A ++ B) m2) s =
-    rbind P (fun _ sA => fold_idx (render_step reg data ft f (MkT nm (A ++ B) m2)) B (length A) sA).
+    rbind P (fun _ sA => rbind (fold_idx (render_step reg data ft f (MkT nm (A ++ B) m2)) B (length A) sA)
+                               (fun _ sE => ROk tt (set_current sE (s_current s)))).
 Proof. exact decorator_after_prefix. Qed.
 Print Assumptions C14_decorator_after_prefix.
